@@ -46,7 +46,7 @@ add("C36", "exploration",
     "latest == max by (timestamp, id) of the current content for every insertion order; generate() "
     "against the real wall clock with the bundle's latest at / ahead of now; Miri underneath",
     "150 / 5 000 secret sets of 2-6 secrets with colliding timestamps in all n! insertion orders (plus "
-    "from_secrets, extend both ways, CBOR round-trip, removal in that order), 400 / 30 000 random op "
+    "from_secrets, extend both ways, CBOR round-trip, decode of a hand-built encoding listing the secrets in that order followed by generate, removal in that order), 400 / 30 000 random op "
     "sequences, and 2 000 / 200 000 generate+insert chains with the latest secret in the past, at now, 1 s, "
     "10 years, up to 2^62 s ahead and at u64::MAX-1. Exploration; all orders of each generated set are covered.",
     "The same secret bytes under two timestamps (same id) make the bundle's *content* order-dependent; the "
